@@ -210,3 +210,13 @@ def _canary_write_addr():
 CANARIES = [("write mask collapsed to all-or-nothing", _canary_mask_any),
             ("second read port reads a neighbouring row", _canary_addr_port0),
             ("write address off by one", _canary_write_addr)]
+
+
+def _callers_items():
+    from transactron.lib import AsyncMemoryBank
+
+    return [("AsyncMemoryBank(2 bits, depth 4, 1 read / 1 write port)", lambda: AsyncMemoryBank(shape=2, depth=4), [("read", ["read", 0]), ("write", ["write", 0])], [])]
+
+
+from ..excl import install as _install  # noqa: E402
+_install(globals(), _callers_items())
